@@ -1,5 +1,6 @@
 import KyupyVerif.Model.SdfWave
 import KyupyVerif.Drv.Sdf
+import KyupyVerif.Drv.Cycle
 /-! Driver extension for the timing data path (Props/C14Wave.lean): the COMPOSITION of the models on one request line —
 SDF text → grammar model (`SdfText.parseSdf`) → block list (`SdfFile.toRaw`) → `Sdf.parse` → `sdfDelay` with the pin / fork
 tables of the circuit → `simWave` of the given op rows for one or more lanes.
@@ -9,7 +10,13 @@ tables of the circuit → `simWave` of the given op rows for one or more lanes.
 * ops   = row (`/` row)*, row = `lut,out,s0,s1,s2,s3,l0,l1,l2,l3` (value sources, delay lines) or `~` for none;
 * caps  = `c_caps` csv;
 * lanes = lane (`/` lane)*, lane = d `@` stim, stim = `~` | idx `=` wave (`|` idx `=` wave)*, wave = ents `:` term as in `wavesim`.
-Answer: `noparse` (the text model rejects, the transformer raises or a number is no whole number of thousandths) | `raise`
+
+`sdftabs <names> <net> <pinidx> <pinqueries> <icqueries>` — the two tables READ OFF THE NETLIST (`netPinLine`, `netIcLine`):
+names = node names `|`-separated (percent-encoded), net = canonical dump without blanks, pinidx = `~` | kind `:` pin `:` index
+(`;` ..)*, pinqueries = `~` | cell `:` pin (`;` ..)*, icqueries = `~` | c1 `:` p1 `:` c2 `:` p2 (`;` ..)* with p = `~` for "no pin".
+Answer: `<pins> # <ics>` in the table format of the `sdf` command (queries without a line are left out).
+
+Answer of `sdfwave`: `noparse` (the text model rejects, the transformer raises or a number is no whole number of thousandths) | `raise`
 (a guard of the annotation loops fails) | `<array> # <lane> / <lane> …` — array = non-zero coordinates `d.l.ip.op=v` of
 `iopaths + interconnects` (format of the `sdf` command); lane = one token per signal index (`.` = never written). -/
 namespace KV.Drv.SdfWave
@@ -49,7 +56,27 @@ def runLane (delay : Nat → Bool → Bool → Int) (ops : List Op) (caps : Arra
   let written := ops.map (·.out) ++ stim.map (·.1)
   " ".intercalate ((List.range n).map fun i => if written.contains i then showWv (envF.getD i Wv.empty) else ".")
 
+def handleTabs (args : List String) : String :=
+  match args with
+  | [namesS, netS, pinidxS, pq, iq] =>
+    let net := KV.Drv.Cycle.parseNet netS
+    let names := ((namesS.splitOn "|").map unpct).toArray
+    let rows := (splitList pinidxS ";").filterMap fun r => match r.splitOn ":" with
+      | [k, p, i] => some ((unpct k, unpct p), i.toNat!)
+      | _ => none
+    let pinIdx : PinIdx := fun k p => (rows.find? (·.1 == (k, p))).map (·.2)
+    let pins := (splitList pq ";").filterMap fun q => match q.splitOn ":" with
+      | [c, p] => (netPinLine net names pinIdx (unpct c) (unpct p)).map fun l => s!"{c}:{p}:{l}"
+      | _ => none
+    let ics := (splitList iq ";").filterMap fun q => match q.splitOn ":" with
+      | [c1, p1, c2, p2] =>
+        (netIcLine net names pinIdx (unpct c1) (parseOptName p1) (unpct c2) (parseOptName p2)).map fun l => s!"{c1}:{p1}:{c2}:{p2}:{l}"
+      | _ => none
+    s!"{joinOr ";" pins} # {joinOr ";" ics}"
+  | _ => "bad-args"
+
 def handle (cmd : String) (args : List String) : Option String :=
+  if cmd == "sdftabs" then some (handleTabs args) else
   if cmd != "sdfwave" then none else
   match args with
   | [mode, nlines, text, pins, ics, opsS, capsS, lanesS] =>
